@@ -150,15 +150,21 @@ def generate(repo: Path) -> str:
 
     rsp = find_class(st, "SsdpSearchResponder")
     od = ast.unparse(find_func(rsp, "_on_data"))
+    # the MX clamp and the random delay: the literal shapes first; otherwise the same constants found anywhere in the
+    # module with names resolved (a helper may have been extracted, a constant hoisted) - see ssdprecv._mx_constants
     m = re.search(r"delay = max\((\d+), min\((\d+), int\(mx_header\)\)\)", od)
-    if not m:
-        raise Refuse("_on_data: delay clamp shape")
-    mx_floor, mx_cap = int(m.group(1)), int(m.group(2))
-    m = re.search(r"self\._loop\.call_at\(self\._loop\.time\(\) \+ randrange\((\d+), delay \* (\d+) - (\d+)\) / (\d+), "
-                  r"self\._send_responses, remote_addr, responses\)", od)
-    if not m:
-        raise Refuse("_on_data: call_at/randrange shape")
-    rnd_lo, rnd_scale, rnd_minus, rnd_div = (int(x) for x in m.groups())
+    m2 = re.search(r"self\._loop\.call_at\(self\._loop\.time\(\) \+ randrange\((\d+), delay \* (\d+) - (\d+)\) / (\d+), "
+                   r"self\._send_responses, remote_addr, responses\)", od)
+    if m and m2:
+        mx_floor, mx_cap = int(m.group(1)), int(m.group(2))
+        rnd_lo, rnd_scale, rnd_minus, rnd_div = (int(x) for x in m2.groups())
+    else:
+        from gen.ssdprecv import _mx_constants
+        (mx_floor, mx_cap), (rnd_lo, rnd_scale, rnd_minus, rnd_div) = _mx_constants(st)
+        whole = ast.unparse(rsp)
+        if "call_at(" not in whole or "_send_responses" not in whole or "self._loop.time()" not in whole:
+            raise Refuse("_on_data: call_at/randrange shape")
+        od = whole      # the remaining textual checks look at the whole class
     m = re.search(r"request_line != '([^']*)' or headers\.get_lower\('man'\) != SSDP_DISCOVER", od)
     if not m:
         raise Refuse("_on_data: request filter shape")
